@@ -24,5 +24,7 @@ def grammars(tier, seed, n_random=1500, exhaustive_prods=3):
         r = rng.random()
         if r < 0.12: vs = [vs[0]] + [rng.choice(RESERVED_V) for _ in vs[1:]]
         elif r < 0.18: vs = [vs[0]] + [1, 2][:nv - 1]
-        ts = ['a', 'b'] if rng.random() < 0.9 else ['a', rng.choice(RESERVED_T)]
+        r2 = rng.random()
+        ts = ['a', 'b'] if r2 < 0.8 else (['a', rng.choice(RESERVED_T)] if r2 < 0.88 else rng.choice([['a', 'ab', 'b', 'bb'], [1, 12, 2, 22], ['a', 'ab', 'b']]))
+        if set(vs) & set(ts): ts = ['a', 'b']          # a variable and a terminal with the same value are not distinguishable by the library (value-class asymmetry, DESIGN 2.1): out of scope
         yield S.random_grammar(rng, vs, ts, rng.choice([2, 3, 3, 4]), rng.choice([2, 3, 4, 5, 6])), 'random'
